@@ -102,10 +102,7 @@ Definition wake_ok (margin0 jitter_cap tip : Z) (ts : list (Z * Z * Z)) (w : Z *
   let h := fst w in
   negb (match snd w with [] => true | _ => false end) &&
   forallb (fun id => existsb (fun ab => in_window margin0 tip (fst ab) (snd ab) h) (find_transfer id ts)) (snd w) &&
-  (* jitter: h - max ready <= cap, computed for ids that name exactly one transfer *)
-  forallb (fun id => match find_transfer id ts with
-                     | [(a, b)] => true
-                     | _ => true end) (snd w) &&
+  (* jitter: h - max ready <= cap, computed when every covered id names exactly one transfer *)
   (let readies := flat_map (fun id => match find_transfer id ts with
                                        | [(a, b)] => [t_ready margin0 tip a b]
                                        | _ => [] end) (snd w) in
@@ -134,8 +131,11 @@ Fixpoint best_subset (margin0 tip : Z) (ts : list (Z * Z * Z)) (cands chosen : l
   | c :: r => omin (best_subset margin0 tip ts r (c :: chosen)) (best_subset margin0 tip ts r chosen)
   end.
 
+Definition piercing_candidates (tip : Z) (ts : list (Z * Z * Z)) : list Z :=
+  nodup Z.eq_dec (tip :: map (fun t => t_deadline (snd t)) ts).
+
 Definition min_piercing (margin0 tip : Z) (ts : list (Z * Z * Z)) : option nat :=
-  best_subset margin0 tip ts (tip :: map (fun t => t_deadline (snd t)) ts) [].
+  best_subset margin0 tip ts (piercing_candidates tip ts) [].
 
 Definition first_infeasible (ts : list (Z * Z * Z)) : option Z :=
   match filter (fun t => negb (t_feasible (snd (fst t)) (snd t))) ts with
